@@ -115,13 +115,23 @@ def seed_script(path, fmt, rng=None):
     return ''.join('%d * %s\n' % (i + 1, l) for i, l in enumerate(L))
 
 
+def big_seed_script(path, fmt):
+    """a header of more than one read chunk (262144 bytes): 70 global attributes of 1000 ints each"""
+    L = ['create %s %d clobber -' % (path, fmt), 'def_dim x 3']
+    for k in range(70):
+        L.append('put_att - big%02d int 1000 %s' % (k, ' '.join(str((k * 1000 + j) % 97) for j in range(1000))))
+    L += ['def_var a int 1 x', 'put_att a units char 2 6d6d', 'enddef', 'put var c a int c - - - - : 5 6 7', 'inq_header', 'close']
+    return ''.join('%d * %s\n' % (i + 1, l) for i, l in enumerate(L))
+
+
 def make_seeds(api_exe, wd, tier, rng):
     seeds = []
-    for fmt in (1, 2, 5):
-        for variant in ([None] if tier == 'quick' else [None, rng]):
-            name = 'seed%d%s.nc' % (fmt, 'b' if variant else '')
+    jobs = [(fmt, variant, False) for fmt in (1, 2, 5) for variant in ([None] if tier == 'quick' else [None, rng])]
+    jobs.append((rng.choice([1, 2, 5]), None, True))
+    for fmt, variant, big in jobs:
+            name = 'seed%d%s.nc' % (fmt, 'B' if big else 'b' if variant else '')
             sp = os.path.join(wd, 'seed.txt')
-            open(sp, 'w').write(seed_script(name, fmt, variant))
+            open(sp, 'w').write(big_seed_script(name, fmt) if big else seed_script(name, fmt, variant))
             rc, lines, err = apicmp.run_impl(api_exe, sp, 1, wd)
             hs = None
             for l in lines:
@@ -131,28 +141,35 @@ def make_seeds(api_exe, wd, tier, rng):
             bad = [l for l in lines if len(l.split()) > 3 and l.split()[3] not in ('0',)]
             if rc != 0 or hs is None or bad:
                 raise RuntimeError('seed file creation failed rc=%s %s %s' % (rc, bad[:3], err[-300:]))
-            seeds.append(dict(name=name, fmt=fmt, hs=hs, data=open(os.path.join(wd, name), 'rb').read()))
+            seeds.append(dict(name=name, fmt=fmt, hs=hs, big=big, data=open(os.path.join(wd, name), 'rb').read()))
     return seeds
 
 
 def gen_cases(seeds, tier, rng):
     """-> list of dict(kind, name, data)"""
     full = []
+    bigcases = []
+    CH = 262144
+    for s in [x for x in seeds if x['big']]:
+        # header larger than one read chunk: the refill path of hdr_fetch (slack move, copy loop across the chunk
+        # boundary) under the sanitizers; a handful of cases around the boundary
+        d, hs, tag = s['data'], s['hs'], s['name']
+        bigcases.append(dict(kind='bighdr', name='%s:intact' % tag, data=d))
+        for cut in list(range(CH - 9, CH + 10, 3)) + [hs - 1, hs - 50, hs + 1]:
+            bigcases.append(dict(kind='bighdr', name='%s:trunc@%d' % (tag, cut), data=d[:cut]))
+        for off in (CH - 8, CH - 4, CH, CH + 4, hs - 8, hs - 4, 8):
+            for v in (0, 0xffffffff, 12, 0x101):
+                bigcases.append(dict(kind='bighdr', name='%s:w4@%d=%x' % (tag, off, v), data=d[:off] + v.to_bytes(4, 'big') + d[off + 4:]))
+    seeds = [x for x in seeds if not x['big']]
     for s in seeds:
         d, hs, tag = s['data'], s['hs'], s['name']
-        for cut in list(range(0, hs + 1)) + [hs + 1, hs + 3, len(d) - 1]:
-            full.append(dict(kind='trunc', name='%s:trunc@%d' % (tag, cut), data=d[:cut]))
-        for off in range(0, hs, 4):
-            for v in DICT4:
-                full.append(dict(kind='w4', name='%s:w4@%d=%x' % (tag, off, v), data=d[:off] + v.to_bytes(4, 'big') + d[off + 4:]))
-            for v in DICT8:
-                full.append(dict(kind='w8', name='%s:w8@%d=%x' % (tag, off, v), data=d[:off] + v.to_bytes(8, 'big') + d[off + 8:]))
     if tier == 'quick':         # all truncation points of one format (the others every 3rd), a seeded third of the substitutions
         f0 = seeds[rng.below(len(seeds))]['name']
         cases = [c for c in full if c['kind'] == 'trunc' and (c['name'].startswith(f0) or rng.chance(1, 3))]
         cases += [c for c in full if c['kind'] != 'trunc' and rng.chance(1, 4)]
     else:
         cases = full
+    cases += bigcases
     nmulti, nflip = (140, 100) if tier == 'quick' else (1500, 600)
     for k in range(nmulti):
         s = rng.choice(seeds)
@@ -178,7 +195,7 @@ def gen_cases(seeds, tier, rng):
             d[bit // 8] ^= 1 << (bit % 8)
             desc.append(str(bit))
         cases.append(dict(kind='bitflip', name='%s:flip:%s' % (s['name'], ','.join(desc)), data=bytes(d)))
-    return cases, len(full)
+    return cases, len(full) + len(bigcases)
 
 
 # ------------------------------------------------------------------------------------------
@@ -411,7 +428,8 @@ def gen_misc_program(rng, path):
         elif r == 1:
             L.append('waitall c %s' % rng.choice(['GET', 'PUT']))
         elif r == 2 and reqn[0]:
-            ids = [rng.choice(['q%d' % rng.range(1, reqn[0]), 'NULL', 'BOGUS']) for _ in range(rng.range(1, 3))]
+            # (ids that were never issued are replayed as an explicit witness: WAITBOGUS)
+            ids = [rng.choice(['q%d' % rng.range(1, reqn[0]), 'q%d' % rng.range(1, reqn[0]), 'NULL']) for _ in range(rng.range(1, 3))]
             L.append('%s %d %s' % (rng.choice(['wait c', 'cancel']), len(ids), ' '.join(ids)))
         elif r == 3:
             L += ['waitall c ALL', 'redef'] + [meta() for _ in range(rng.range(0, 3))]
@@ -425,7 +443,8 @@ def gen_misc_program(rng, path):
         elif r == 4:
             recv = [v for v in vars_ if v[2] and v[2][0][1] == 0]
             if recv:
-                L.append('fill_var_rec %s %d' % (rng.choice(recv)[0], rng.range(0, 2)))
+                # by id: the name may have been changed by a rename_var above (an invalid varid is witness F19)
+                L.append('fill_var_rec #%d %d' % (vars_.index(rng.choice(recv)), rng.range(0, 2)))
         else:
             L.append('sync')
         L.append('inq_buf')
@@ -534,6 +553,21 @@ def witnesses(V, tree_p, tree_a, wd, api_asan, open_p, open_a, drv, tier):
     kind, site = report_sig(err)
     record('REC62', 'api:record-index-2^62-offset-overflow', bool(kind) or rc != 0,
            'short v(rec); ncmpi_put_vara_short_all(start 2^62, count 1): rc=%s %s@%s' % (rc, kind, site), dict(script=text))
+    # F19: ncmpi_fill_var_rec with a variable id that does not exist
+    text = ('1 * create f19.nc 1 clobber -\n2 * def_dim t 0\n3 * def_var v int 1 t\n4 * enddef\n'
+            '5 * fill_var_rec #99 0\n6 * close\n')
+    rc, lines, err = run_script_asan(api_asan, text, 1, wd, 'f19')
+    kind, site = report_sig(err)
+    record('F19', 'api:fill_var_rec-invalid-varid-indexes-out-of-bounds', bool(kind) or rc != 0,
+           'ncmpi_fill_var_rec(ncid, 99, 0) with one variable defined: rc=%s %s@%s' % (rc, kind, site), dict(script=text))
+    # WAITBOGUS: a wait that is refused because of an unknown id, then wait_all
+    text = ('1 * create wb.nc 1 clobber -\n2 * def_dim x 5\n3 * def_var v double 1 x\n4 * enddef\n5 * attach 65536\n'
+            '6 * bput q1 vara v int c 4 1 - - : 22\n7 * bput q2 vara v uchar c 3 2 - - : 59 86\n8 * wait c 3 q2 BOGUS NULL\n'
+            '9 * waitall c ALL\n10 * detach\n11 * close\n')
+    rc, lines, err = run_script_asan(api_asan, text, 1, wd, 'wb')
+    kind, site = report_sig(err)
+    record('WAITBOGUS', 'api:wait-refused-for-unknown-id-then-wait-use-after-free', bool(kind) or rc != 0,
+           'two bput, ncmpi_wait_all(3, {q2, never-issued id, NC_REQ_NULL}) = refused, then ncmpi_wait_all(NC_REQ_ALL): rc=%s %s@%s' % (rc, kind, site), dict(script=text))
     # N2: hash size 0
     text = '1 * create n2.nc 1 clobber nc_hash_size_dim=0\n2 * def_dim x 10\n3 * def_dim y 10\n4 * enddef\n5 * close\n'
     rc, lines, err = run_script_asan(api_asan, text, 1, wd, 'n2')
